@@ -108,6 +108,27 @@ class ImageBatch(DataTensor):
         grids = [g for g in (getattr(arg, "_grid", None) for arg in args) if g is not None]
         if not grids:
             return None
+        # Operations which reorder or select images along the batch dimension
+        ndim = grids[0][0].ndim + 2 if grids[0] else 0  # batch tensor shape is (N, C, ..., X)
+        if func in (torch.flip, Tensor.flip) and ndim > 0:
+            dims = args[1] if len(args) > 1 else kwargs.get("dims", ())
+            dims = (dims,) if isinstance(dims, int) else tuple(dims)
+            if any(d % ndim == 0 for d in dims):
+                return list(reversed(grids[0]))
+        if func in (torch.roll, Tensor.roll) and ndim > 0:
+            shifts = args[1] if len(args) > 1 else kwargs.get("shifts", 0)
+            dims = args[2] if len(args) > 2 else kwargs.get("dims", None)
+            if dims is not None:
+                shifts = (shifts,) if isinstance(shifts, int) else tuple(shifts)
+                dims = (dims,) if isinstance(dims, int) else tuple(dims)
+                shift = sum(s for s, d in zip(shifts, dims) if d % ndim == 0)
+                num = len(grids[0])
+                return [grids[0][(i - shift) % num] for i in range(num)]
+        if func in (torch.index_select, Tensor.index_select) and ndim > 0:
+            dim = args[1] if len(args) > 1 else kwargs.get("dim", 0)
+            index = args[2] if len(args) > 2 else kwargs.get("index")
+            if dim % ndim == 0 and isinstance(index, Tensor):
+                return [grids[0][i] for i in index.as_subclass(Tensor).tolist()]
         dim = kwargs.get("dim", 0)
         if (
             func
